@@ -69,7 +69,7 @@ Lemma ice2_reader_step block meta o o' s a total :
   let '(r, s') := ice2_step block meta o s in
   winv (bw s' a total) /\
   wrap_spec total (b_pos (i_buf s)) [(o', r)] /\
-  b_pos (i_buf s') = spec_cursor (b_pos (i_buf s)) [(o', r)] /\
+  b_pos (i_buf s') = spec_cursor total (b_pos (i_buf s)) [(o', r)] /\
   i_body s' = i_body s /\ i_caps s' = i_caps s /\ i_taken s' = i_taken s /\
   i_stop s' = i_stop s /\ i_spin s' = i_spin s.
 Proof.
@@ -104,7 +104,7 @@ Section Histories.
     wrap_spec total (b_pos (i_buf s)) (ice2_trace block meta ops s) /\
     (exists a', Inv a' (ice2_state block meta ops s) /\ winv (bw (ice2_state block meta ops s) a' total)) /\
     b_pos (i_buf (ice2_state block meta ops s)) =
-      spec_cursor (b_pos (i_buf s)) (ice2_trace block meta ops s).
+      spec_cursor total (b_pos (i_buf s)) (ice2_trace block meta ops s).
   Proof.
     induction ops as [|o ops IH]; intros a s Hi Hw.
     - simpl. split; [exact I|]. split; [exists a; auto | reflexivity].
@@ -116,7 +116,7 @@ Section Histories.
         destruct (IH a s' Hi' Hw') as (T1 & T2 & T3).
         rewrite wrap_spec_cons. rewrite S2 in T1, T3.
         split; [split; [exact S1 | exact T1]|]. split; [exact T2|].
-        rewrite (spec_cursor_cons _ o' r). exact T3.
+        rewrite (spec_cursor_cons _ _ o' r). exact T3.
       + destruct o as [c|n|p|v]; try discriminate Ho. cbn [ice2_step snd].
         destruct (Inv_download a s Hi Hw) as (a' & Hi' & Hw' & Hp).
         destruct (IH a' _ Hi' Hw') as (T1 & T2 & T3). rewrite Hp in T1, T3. auto.
